@@ -1284,6 +1284,20 @@ class PrefixVerified(VerificationStrategy[WC, W]):
         return "PrefixVerified(k=%d)" % self.k
 
 
+class PrefixVerifiedByPack(PrefixVerified):
+    """PrefixVerified that counts and generates the way the library does by default: through a specification found with its
+    own pack (every use of a specification containing it runs a search from inside the strategy)."""
+
+    get_terms = VerificationStrategy.get_terms
+    get_objects = VerificationStrategy.get_objects
+
+    def formal_step(self):
+        return "prefix of length >= %d (counted through its pack)" % self.k
+
+    def __repr__(self):
+        return "PrefixVerifiedByPack(k=%d)" % self.k
+
+
 class PrefixVerifiedNested(PrefixVerified):
     """Verifies the classes whose prefix has exactly k letters; the pack it supplies itself contains a pack-supplying
     verification strategy (for prefixes of >= inner letters, inner > k), so the expansion of a verified class brings in
@@ -1382,7 +1396,7 @@ def basic_pack(**kw):
 def make_pack(sym=False, inf=False, merge=False, iterative=False, factory=False, parent_factory=False,
               prefix_verified=None, prefix_verified_rev=None, empty_prefix_verified=False, two_sets=False, no_initial=False, name=None, expand=True,
               split=False, oneway=False, lazy=False, trim=False, rename=False, mono=False, fac2=False, cycle=False,
-              redundant_parent=False, brute=None, trimonly=False, hidden=False, trimrename=False, pfactory2=False, noinf=False, redpar=False, prefix_verified_nested=None, expand2=False, lookahead=False, ow2=None, sym_marked=False, inf_marked=False, fold=False, swapexp=False):
+              redundant_parent=False, brute=None, trimonly=False, hidden=False, trimrename=False, pfactory2=False, noinf=False, redpar=False, prefix_verified_nested=None, expand2=False, lookahead=False, ow2=None, sym_marked=False, inf_marked=False, fold=False, swapexp=False, prefix_verified_bypack=None):
     inferral = ([MinimizeMarked()] if inf_marked else [MinimizePatterns()] if inf else []) + ([MergeStats()] if merge else []) + ([RenameStats()] if rename else [])
     exp = [ExpandFactory()] if factory else [Expand()]
     if parent_factory:
@@ -1422,6 +1436,8 @@ def make_pack(sym=False, inf=False, merge=False, iterative=False, factory=False,
         ver.append(PrefixVerified(prefix_verified))
     if prefix_verified_rev is not None:
         ver.append(PrefixVerifiedRev(prefix_verified_rev))
+    if prefix_verified_bypack is not None:
+        ver.append(PrefixVerifiedByPack(prefix_verified_bypack))
     if prefix_verified_nested is not None:
         ver.append(PrefixVerifiedNested(*prefix_verified_nested))
     if empty_prefix_verified:
